@@ -112,6 +112,10 @@ type Ctx struct {
 	localObjs      []localObj
 	esc            *escInfo
 	hasPrivate     bool
+	protFields     []protField
+	encapsUsed     bool
+	inAllHavoc     bool
+	mapHeapPkg     map[string]string // map heap -> in-repo package owning an unexported type it mentions
 	rawHavoc       bool // loop-head havoc: callers restore what the loop body cannot write
 }
 
@@ -190,6 +194,7 @@ func (c *Ctx) reset() {
 	c.allocs = nil
 	c.stable = nil
 	c.localObjs = nil
+	c.protFields = nil
 	if c.esc == nil {
 		c.esc = newEscInfo()
 	}
@@ -202,6 +207,9 @@ func (c *Ctx) reset() {
 	}
 	if c.trackedByKey == nil {
 		c.trackedByKey = map[string]string{}
+	}
+	if c.mapHeapPkg == nil {
+		c.mapHeapPkg = map[string]string{}
 	}
 	if c.implTypes == nil {
 		c.implTypes = map[string]types.Type{}
@@ -333,7 +341,7 @@ func (c *Ctx) setHeap(st *State, name string, v T) {
 func (c *Ctx) havocHeap(st *State, name string) {
 	sortS := c.R.heaps[name]
 	st.heaps[name] = c.fresh(name, sortS)
-	if c.scan {
+	if c.scan && !c.inAllHavoc {
 		for _, k := range c.active {
 			m := c.loopWrites[k]
 			if m == nil {
@@ -374,9 +382,19 @@ func (c *Ctx) havocAllCallees(st *State, ccs []*ssa.CallCommon) {
 			keep[n] = c.getHeap(st, n)
 		}
 	}
+	var before map[string]T
+	if !c.rawHavoc && !c.scan {
+		before = make(map[string]T, len(st.heaps))
+		for k, v := range st.heaps {
+			before[k] = v
+		}
+	}
 	c.inCalleeHavoc = true
 	c.havocAll(st)
 	c.inCalleeHavoc = false
+	if before != nil {
+		c.keepEncapsulated(st, before, ccs)
+	}
 	for n, v := range keep {
 		st.heaps[n] = v
 	}
@@ -403,6 +421,8 @@ func (c *Ctx) havocAll(st *State) {
 			c.keepPrivate(st, before)
 		}()
 	}
+	c.inAllHavoc = true
+	defer func() { c.inAllHavoc = false }()
 	names := append([]string(nil), c.R.heapOrder...)
 	for _, n := range names {
 		if n == HAlloc {
